@@ -231,13 +231,13 @@ func ruleMergeDispatch(c *Ctx, r *R) {
 		if cal == nil {
 			continue
 		}
-		if (cal.Name() == "merge2" || cal.Name() == "merge3") && len(dd.calls) > 0 {
+		if (fname(cal) == "merge2" || fname(cal) == "merge3") && len(dd.calls) > 0 {
 			continue
 		}
 		switch {
-		case cal.Name() == "merge2" || cal.Name() == "merge3":
+		case fname(cal) == "merge2" || fname(cal) == "merge3":
 			n := 2
-			if cal.Name() == "merge3" {
+			if fname(cal) == "merge3" {
 				n = 3
 			}
 			// guarded by len(in) == n
@@ -253,8 +253,8 @@ func ruleMergeDispatch(c *Ctx, r *R) {
 					argsOK = false
 				}
 			}
-			r.ok(guarded && argsOK, "chans.Merge|dispatch:"+cal.Name(), call.Pos(), cal.Name()+" must be called under len(in) == "+itoa(n)+" with in[0.."+itoa(n-1)+"] in order")
-		case cal.Name() == "Select" && cal.Pkg != nil && cal.Pkg.Pkg.Path() == "reflect":
+			r.ok(guarded && argsOK, "chans.Merge|dispatch:"+fname(cal), call.Pos(), fname(cal)+" must be called under len(in) == "+itoa(n)+" with in[0.."+itoa(n-1)+"] in order")
+		case fname(cal) == "Select" && cal.Pkg != nil && cal.Pkg.Pkg.Path() == "reflect":
 			// dominated, inside the loop, by the false edge of len(cases) == 0
 			guarded := false
 			arg := call.Call.Args[0]
@@ -434,7 +434,7 @@ func ruleMergeZeroTrip(c *Ctx, r *R) {
 	inClosures := 0
 	isSenderClose := func(call *ssa.Call) bool {
 		cal := staticCallee(&call.Call)
-		return cal != nil && cal.Name() == "Close" && cal.Signature.Recv() != nil && isNamedType(cal.Signature.Recv().Type(), "stream", "PipeSender")
+		return cal != nil && fname(cal) == "Close" && cal.Signature.Recv() != nil && isNamedType(cal.Signature.Recv().Type(), "stream", "PipeSender")
 	}
 	for _, g := range withAnon(fn) {
 		instrs(g, func(b *ssa.BasicBlock, i int, in ssa.Instruction) {
@@ -470,7 +470,7 @@ func ruleMergeZeroTrip(c *Ctx, r *R) {
 			for _, g := range guardsOf(b) {
 				if cf, ok := g.asCmp(); ok && cf.op == token.EQL && isConstInt(cf.y, 0) && strings.HasPrefix(path(cf.x), "len(") {
 					if call, ok := ret.Results[0].(*ssa.Call); ok {
-						if cal := staticCallee(&call.Call); cal != nil && cal.Name() == "Empty" {
+						if cal := staticCallee(&call.Call); cal != nil && fname(cal) == "Empty" {
 							okZero = true
 						}
 					}
@@ -519,7 +519,7 @@ func ruleMergeCloseOnce(c *Ctx, r *R) {
 				continue
 			}
 			cal := staticCallee(&call.Call)
-			if cal == nil || cal.Name() != "Close" || cal.Signature.Recv() == nil || !isNamedType(cal.Signature.Recv().Type(), "stream", "PipeSender") {
+			if cal == nil || fname(cal) != "Close" || cal.Signature.Recv() == nil || !isNamedType(cal.Signature.Recv().Type(), "stream", "PipeSender") {
 				continue
 			}
 			seenClose[call] = true
@@ -664,7 +664,7 @@ func ruleMergeWorkerShape(c *Ctx, r *R) {
 			if call.Call.IsInvoke() && call.Call.Method.Name() == "Next" {
 				next = call
 			}
-			if cal := staticCallee(&call.Call); cal != nil && cal.Name() == "Send" && cal.Signature.Recv() != nil && isNamedType(cal.Signature.Recv().Type(), "stream", "PipeSender") {
+			if cal := staticCallee(&call.Call); cal != nil && fname(cal) == "Send" && cal.Signature.Recv() != nil && isNamedType(cal.Signature.Recv().Type(), "stream", "PipeSender") {
 				send = call
 			}
 		})
